@@ -2,8 +2,9 @@
    handling of input that arrives during a search (after the fixes 8ff4e2c bare go, 0de86eb EOF = quit, b1eb103 poll dispatch).
    Input: a list of (d, line): the line becomes visible to the engine d polls after the previous line was taken (d is irrelevant
    while the engine is idle: the main loop blocks on the channel).  End of input = the reader thread sends "quit".
-   Modelled commands: uci, isready, ucinewgame/cleartt, position, go (depth N | infinite | bare | movetime 0), stop (idle), eval, d,
-   quit/exit/x, unknown.  Not modelled (OUnmodelled): help, perft, perft!, psuite, sbench, move, clock-based go.
+   Modelled commands: uci, isready, ucinewgame/cleartt, position, move, go (depth N | infinite | bare | movetime 0), stop (idle), eval, d,
+   perft N (N >= 1), perft! N (N < 255), quit/exit/x, unknown.  Not modelled (OUnmodelled): help, psuite, sbench, clock-based go,
+   perft 0 (the u8 depth wraps to 255) and perft! 255 (depth + 1 overflows).
    Threads, the OS pipe and wall-clock time are not modelled: the channel is a FIFO of lines (trusted: std::sync::mpsc, one producer). *)
 From Coq Require Import NArith ZArith List Bool String Ascii FMapPositive.
 From JV Require Import Gen.Consts Model.Bits Model.Chess Model.Eval Model.TT Model.Search Model.SearchChess Model.Fen Model.Go.
@@ -18,6 +19,9 @@ Inductive uout :=
 | OSearchOut (o : out move)           (* an info / bestmove line of a search *)
 | ODisplay (g : game)                 (* the `d` board *)
 | OEval (v : Z)
+| OPerft (depth : N) (per_move : list (string * N)) (total : N)
+      (* go_perft: the "<from><to>: n" lines perft prints for the accepted root moves (generation order here; rayon prints them in any
+         order when depth > 2; none at depth 1, where the leaves are bulk-counted), then " Found <total> moves for depth <depth> in ..ms" *)
 | OUnmodelled (cmd : string).
 
 Inductive status := Continue | Exit | UPanic.
@@ -118,6 +122,15 @@ Definition session_search (extra : N) (u : ustate) (depth : Z) (max_time : Z) (i
 
 Definition unknown_line : string := "  Unknown command".
 
+(* perft(game, depth, print = true) seen from the console: one line per accepted root move, for depth >= 2 *)
+Definition perft_lines (d : N) (g : game) : list (string * N) :=
+  if (d <=? 1)%N then [] else
+  flat_map (fun m => match make_search_move g m with
+                     | Made g' => [((nth (N.to_nat (mfrom m)) SQUARE_STRINGS "" ++ nth (N.to_nat (mto m)) SQUARE_STRINGS "")%string, perft_n (d - 1) g')]
+                     | _ => []
+                     end) (generate_moves g true).
+Definition go_perft (d : N) (g : game) (detail : bool) : uout := OPerft d (if detail then perft_lines d g else []) (perft_n d g).
+
 (* one iteration of the main loop on `line`; `input` = the lines not yet read. Returns new state, outputs, the re-queued line, remaining input, status *)
 Definition uci_step (extra : N) (u : ustate) (line0 : string) (input : list (nat * string))
   : ustate * list uout * option string * list (nat * string) * status :=
@@ -161,7 +174,34 @@ Definition uci_step (extra : N) (u : ustate) (line0 : string) (input : list (nat
       end
     end
   else if String.eqb cmd "stop" then (u, [OText unknown_line], None, input, Continue)
-  else if String.eqb cmd "help" || String.eqb cmd "perft" || String.eqb cmd "perft!" || String.eqb cmd "psuite" || String.eqb cmd "sbench" || String.eqb cmd "move"
+  else if String.eqb cmd "move" then
+    (* every remaining token is parsed and made on the current position, its key appended to the recorded history *)
+    match play_moves (u_game u) (u_rep u) (rest_tokens line) with
+    | FOk (g, rep) => (mkU g (u_tt u) rep, [], None, input, Continue)
+    | _ => (u, [], None, input, UPanic)                          (* panic!("Illegal move") / history beyond its capacity *)
+    end
+  else if String.eqb cmd "perft" then
+    match rest_tokens line with
+    | [] => (u, [], None, input, Continue)
+    | t :: _ =>
+      if String.eqb t "simple" then (u, [OText " Please provide depth"], None, input, Continue)   (* a token holds no second word *)
+      else match parse_uint 256 t with
+           | None => (u, [], None, input, UPanic)                 (* parse::<u8>().unwrap() *)
+           | Some d => if (d =? 0)%N then (u, [OUnmodelled "perft 0"], None, input, Continue)
+                       else (u, [go_perft d (u_game u) true], None, input, Continue)
+           end
+    end
+  else if String.eqb cmd "perft!" then
+    match rest_tokens line with
+    | [] => (u, [], None, input, UPanic)                          (* split.next().unwrap() *)
+    | t :: _ =>
+      match parse_uint 256 t with
+      | None => (u, [], None, input, UPanic)
+      | Some d => if (d =? 255)%N then (u, [OUnmodelled "perft! 255"], None, input, Continue)
+                  else (u, map (fun i => go_perft (N.of_nat i) (u_game u) false) (seq 1 (N.to_nat d)) ++ [OText " Done with perft!"], None, input, Continue)
+      end
+    end
+  else if String.eqb cmd "help" || String.eqb cmd "psuite" || String.eqb cmd "sbench"
        then (u, [OUnmodelled cmd], None, input, Continue)
   else (u, [OText unknown_line], None, input, Continue).
 
